@@ -35,9 +35,14 @@ enum Hv {
     DupInvalid,
     DupMixed,
     Padded,
+    /// the valid value followed by a no-break space (U+00A0, octets C2 A0): not optional whitespace, the value is another one
+    Nbsp,
+    /// a look-alike: one letter replaced by a non-ASCII character that Unicode case folding or trimming maps back (Kelvin sign for k,
+    /// long s for s, a leading em space where the value has neither letter)
+    LookAlike,
 }
 
-const HV_ALTS: [Hv; 8] = [Hv::Case, Hv::Absent, Hv::Empty, Hv::Near1, Hv::Near2, Hv::DupInvalid, Hv::DupMixed, Hv::Padded];
+const HV_ALTS: [Hv; 10] = [Hv::Case, Hv::Absent, Hv::Empty, Hv::Near1, Hv::Near2, Hv::DupInvalid, Hv::DupMixed, Hv::Padded, Hv::Nbsp, Hv::LookAlike];
 
 #[derive(Clone, Copy, Debug, PartialEq, Eq, Hash)]
 enum Psk {
@@ -82,6 +87,8 @@ fn header_lines(i: usize, v: Hv) -> Vec<String> {
         Hv::DupInvalid => vec![format!("{n}: {}", val[2]), format!("{n}: {}", val[3])],
         Hv::DupMixed => vec![format!("{n}: {}", val[2]), format!("{n}: {}", val[0])],
         Hv::Padded => vec![format!("{n}:   {}  ", val[0])],
+        Hv::Nbsp => vec![format!("{n}: {}\u{a0}", val[0])],
+        Hv::LookAlike => vec![format!("{n}: {}", ["\u{2003}upgrade", "websoc\u{212a}et", "\u{2003}13", "penguin-v7\u{2003}"][i])],
     }
 }
 
